@@ -134,6 +134,99 @@ def rule_view_extent(ck, units):
             ck.ob('view-extent', key, f.where(d), not det, det)
 
 
+def rule_complex_adapter(ck, units):
+    """complex-adapter-2x2: adapter::complex_matrix presents a + ib as the real 2x2 block [[a, -b], [b, a]] (so that (a + ib)(x + iy) is
+    reproduced on interleaved real vectors).  row_iterator::value() is evaluated for the four combinations of its two boolean state members
+    (row_real, col_real) - a path-sensitive symbolic evaluation of the function body (if / else, ?:, ==, !=, !, &&, ||, locals) - and must
+    give  (T,T) -> Re, (T,F) -> -Im, (F,T) -> +Im, (F,F) -> Re  of the base value."""
+    ck.rule('complex-adapter-2x2', 'adapter::complex_adapter::row_iterator::value() evaluated for all four (row_real, col_real) states is [[Re, -Im], [Im, Re]] of the base value '
+                                   '(the real-equivalent of multiplication by a + ib; the transposed sign pattern is the conjugate matrix)', 1)
+    want = {(True, True): 're', (True, False): '-im', (False, True): 'im', (False, False): 're'}
+    done = False
+    for u in units.values():
+        for f in u.funcs:
+            if not (f.cls or '').endswith('complex_adapter::row_iterator') or f.q.split('::')[-1] != 'value' or f.body is None or done:
+                continue
+            done = True
+
+            def ev_bool(e, env):
+                e = unwrap(e)
+                if e is None:
+                    return None
+                if e['k'] == 'mem' and e.get('n') in env:
+                    return env[e['n']]
+                if e['k'] == 'ref' and e.get('n') in env:
+                    return env[e['n']]
+                if e['k'] == 'lit' and e.get('t') == 'bool':
+                    return e['v'] == 'true'
+                if e['k'] == 'un' and e['op'] == '!':
+                    v = ev_bool(e['e'], env)
+                    return None if v is None else not v
+                if e['k'] == 'bin' and e['op'] in ('==', '!=', '&&', '||'):
+                    a, b = ev_bool(e['x'], env), ev_bool(e['y'], env)
+                    if a is None or b is None:
+                        return None
+                    return {'==': a == b, '!=': a != b, '&&': a and b, '||': a or b}[e['op']]
+                return None
+
+            def ev_val(e, env):
+                e = unwrap(e)
+                if e is None:
+                    return None
+                if e['k'] == 'cond':
+                    c = ev_bool(e['c'], env)
+                    return None if c is None else ev_val(e['x'] if c else e['y'], env)
+                if e['k'] == 'un' and e['op'] == '-':
+                    v = ev_val(e['e'], env)
+                    return None if v is None else (v[1:] if v.startswith('-') else '-' + v)
+                if e['k'] == 'call' and (e.get('f') or '').split('::')[-1] in ('real', 'imag') and e.get('a'):
+                    return 're' if e['f'].endswith('real') else 'im'
+                if e['k'] == 'call' and e.get('m') in ('real', 'imag'):
+                    return 're' if e['m'] == 'real' else 'im'
+                if e['k'] == 'ref' and ('val', e['d']) in env:
+                    return env[('val', e['d'])]
+                return None
+
+            def run(st, env):
+                """returns the returned term, or None (fall through), or 'UNKNOWN'"""
+                if st is None:
+                    return None
+                k = st['k']
+                if k == 'block':
+                    for s_ in st.get('s', []):
+                        r = run(s_, env)
+                        if r is not None:
+                            return r
+                    return None
+                if k == 'if':
+                    c = ev_bool(st['c'], env)
+                    if c is None:
+                        return 'UNKNOWN'
+                    return run(st.get('t') if c else st.get('e'), env)
+                if k == 'ret':
+                    return ev_val(st.get('e'), env) or 'UNKNOWN'
+                if k == 'decl':
+                    for v in st['v']:
+                        if v.get('init') is not None:
+                            b = ev_bool(v['init'], env)
+                            if b is not None:
+                                env[v['n']] = b
+                            t = ev_val(v['init'], env)
+                            if t is not None:
+                                env[('val', v['d'])] = t
+                    return None
+                if k in ('expr', 'null'):
+                    return None
+                return None if k not in ('for', 'while', 'do', 'switch', 'goto') else 'UNKNOWN'
+            got = {}
+            for rr in (True, False):
+                for cr in (True, False):
+                    got[(rr, cr)] = run(f.body, {'row_real': rr, 'col_real': cr})
+            bad = ['(row_real=%s, col_real=%s) -> %s, expected %s' % (k[0], k[1], got[k], want[k]) for k in sorted(want, reverse=True) if got[k] != want[k]]
+            ck.ob('complex-adapter-2x2', 'amgcl::adapter::complex_adapter::row_iterator::value', f.where(), not bad, '' if not bad else
+                  'value() gives ' + '; '.join(bad) + (': the adapter represents conj(A), not A' if all(got[k] in ('re', 'im', '-im') for k in got) else ''))
+
+
 def rule_witness(ck):
     """compile-fail witnesses: tus/type_witness.cpp holds one static_assert per identity of the value-type traits / backend mixing rules;
     the unit is compiled (syntax only) against the current /repo, a failing assertion is a violation of that witness"""
@@ -179,6 +272,7 @@ def main(tier):
     rule_acc(ck, units)
     rule_view(ck, units)
     rule_view_extent(ck, units)
+    rule_complex_adapter(ck, units)
     rule_witness(ck)
     ck.assumptions += ['that block, complex-adapter, hybrid-backend and scalar formulations have the same entries / solutions, and that the mixed-precision solver reaches 1e-8, is numerical and NOT decided']
     return ck.finish()
